@@ -33,8 +33,14 @@
   all C03 theorems hold for both.
 -/
 import Flamego.Model.Writer
+import Flamego.Gen.ConstFacts
 namespace Flamego.Chain
 open Flamego.Writer
+
+/-- recovery.go: the status Recovery sends, and the length of its plain body
+    `http.StatusText(http.StatusInternalServerError)` — both read from the source on every run -/
+def recoveryStatus : Nat := Gen.recoveryStatus
+def recoveryPlainLen : Nat := Gen.recoveryPlainBody.length
 
 /-- kinds of panic value (the value itself is irrelevant to control flow) -/
 inductive PVal
@@ -144,13 +150,14 @@ def doBody (c : Cfg) (i n : Nat) (st : St) : Res :=
   if hookFires st then (spendOnce c st, some (.hook, i))
   else ({ st with w := step st.w (.write n n), out := if c.head then st.out else st.out ++ [.xs n] }, none)
 
-/-- recovery.go:136-146 — `w.WriteHeader(500); w.Write(body)`, body by environment.
+/-- recovery.go:136-146 — `w.WriteHeader(500); w.Write(body)`, body by environment
+    (`Cfg.dev` is `Env() == EnvTypeDev`; the constant compared with is `Gen.recoveryDetailEnvName`).
     With `onceBug` the hooks run (and may panic) like for any other WriteHeader. -/
 def recoverWrite (c : Cfg) (r : Nat) (st : St) : Res :=
   if c.onceBug && hookFires st then (spendOnce c st, some (.hook, r))
   else
-    let len := if c.dev then c.detailLen else 21
-    ({ st with w := step (st.w.writeHeader 500) (.write len len),
+    let len := if c.dev then c.detailLen else recoveryPlainLen
+    ({ st with w := step (st.w.writeHeader recoveryStatus) (.write len len),
                out := if c.head then st.out else st.out ++ [if c.dev then Tok.detail else Tok.plain] }, none)
 
 /-! ### one handler -/
